@@ -317,7 +317,8 @@ def rule_w_reentry(ctx):
 
 def rule_w_read(ctx):
     R = RuleResult("W-read", "lookups, removals and in-place updates reach no mover, no table replacement, no allocation, no insertion into a table "
-                   "and no all-at-once operation, and hash at most once")
+                   "and no all-at-once operation, and hash at most once; the bounded mover is called only after an insertion into the main table or "
+                   "for an element still in the old table")
     ce = cost_engine(ctx)
     eps = entry_points(ctx)
     mv = movers(ctx)
@@ -347,4 +348,63 @@ def rule_w_read(ctx):
                 lin.extend(ce.linear_sites.get(p, [])[:2])
             R.viol(name, b.where(Loc(0, 0)), "%s: hashes=%s (bound 1) moves=%s allocations=%s linear-operations=%s; reaches: %s %s"
                    % (name, _fmt(c["H"]), _fmt(c["M"]), _fmt(c["A"]), _fmt(c["L"]), "; ".join(bad[:5]), "; ".join(lin[:4])))
+    # an in-place update moves nothing: the bounded mover is called only (a) where a caller's element has just been put into the main table,
+    # or (b) for an element that is still in the old table — on the old-table edge of a located bucket's flag (`if item.will_move() { carry }`).
+    # A helper without a located bucket in scope (`fn nudge_resize(&mut self)`) hands the obligation to its call sites.
+    from rules_typestate import bounded_movers
+    from rules_colour import flag_edges, edge_dominates
+    T = ctx.facts.types
+    Bty = ctx.roles.B
+    bm = set(bounded_movers(ctx))
+    work = []
+    for b in ctx.facts.bodies.values():
+        for c in ctx.calls(b):
+            lc = c.local_callee()
+            if lc is not None and lc.path in bm and not b.is_cleanup(c.loc.bb) and b.path not in bm:
+                work.append((b, c, 0))
+    seen = set()
+    sites = 0
+    while work:
+        b, c, depth = work.pop()
+        if (b.path, c.loc.bb) in seen:
+            continue
+        seen.add((b.path, c.loc.bb))
+        sites += 1
+        ins = [x for x in ctx.calls(b) if x.tname in (HBT + "insert_no_grow", HBT + "insert", HBT + "insert_entry") and ctx.role(b, x.arg_path(0)) == MAIN
+               and not b.is_cleanup(x.loc.bb) and b.dominates(x.loc, c.loc)]
+        if ins:
+            R.inst(fn=b.path, site=c.where(), carry="after an insertion into the main table", verdict="ok")
+            continue
+        if any(side == OLD and edge_dominates(b, e, c.loc.bb) for e, (bk, side) in flag_edges(ctx, b).items()):
+            R.inst(fn=b.path, site=c.where(), carry="for an element still in the old table (old-table edge of the bucket's flag)", verdict="ok")
+            continue
+        has_bucket = any(_contains_adt(T, l["ty"], Bty) for l in b.locals[1:])
+        own = ctx.facts.closure_parent(b)
+        if not has_bucket and not own.raw.get("exported") and depth < 3 and b.kind != "Closure":
+            callers = 0
+            for b2 in ctx.facts.bodies.values():
+                for c2 in ctx.calls(b2):
+                    lc2 = c2.local_callee()
+                    if lc2 is not None and lc2.path == b.path and not b2.is_cleanup(c2.loc.bb):
+                        callers += 1
+                        work.append((b2, c2, depth + 1))
+            R.inst(fn=b.path, site=c.where(), carry="obligation passed to the %d call site(s) of this helper" % callers, verdict="ok" if callers else "VIOLATION")
+            if callers:
+                continue
+        R.inst(fn=b.path, site=c.where(), verdict="VIOLATION")
+        R.viol("%s:carry-without-cause" % b.path, c.where(), "%s runs the bounded mover where no element was just inserted and none is known to be in the old table: "
+               "an in-place update (an insert that overwrites a key already in the main table) would move up to R elements" % b.path)
+    if sites < 2:
+        R.anchor("carry-sites", "expected the two call sites of the bounded mover (after an insertion; for an overwritten old-table element), found %d" % sites)
     return R
+
+
+def _contains_adt(T, tid, adt, depth=0):
+    t = T[tid]
+    if t.get("adt") == adt:
+        return True
+    if depth > 4:
+        return False
+    if t.get("k") in ("ref", "ptr"):
+        return _contains_adt(T, t["inner"], adt, depth + 1)
+    return any(_contains_adt(T, a, adt, depth + 1) for a in t.get("args", []) if isinstance(a, int))
